@@ -271,6 +271,33 @@ func main() {
 				})
 			})
 		}
+		// long prefixes: a formatter that sizes its result from the text alone (not prefix + text) cuts a long prefix when
+		// the buffer has to grow. Prefix lengths around the powers of two up to 4096 and around typical text sizes.
+		var longPre [][]byte
+		for _, n := range []int{31, 32, 33, 47, 48, 63, 64, 65, 66, 70, 80, 96, 100, 127, 128, 129, 200, 255, 256, 257, 500, 1000, 1023, 1024, 1025, 4096} {
+			b := make([]byte, n)
+			for i := range b {
+				b[i] = "0123456789abcdefXIVM-."[i%22]
+			}
+			longPre = append(longPre, b)
+		}
+		for _, t := range []string{"date", "roman", "sem", "size", "uu"} {
+			t := t
+			r.Phase(fmt.Sprintf("%s.DefaultFormatter: %d values x %d flag subsets x %d long prefixes (31..4096 bytes) x spare capacities {0,1,5,16,40,100}", t, nvals(t), nflags(t), len(longPre)), "complete grid", func() {
+				n := int64(nvals(t) * nflags(t))
+				r.Parallel(n, 1, func(w *mc.W, i int64) {
+					vi, f := int(i)/nflags(t), int(i)%nflags(t)
+					for _, pre := range longPre {
+						for _, spare := range []int{0, 1, 5, 16, 40, 100} {
+							w.Point()
+							w.NonTrivial()
+							p.Do(w, arg{Type: t, Val: vi, Flags: f, Prefix: mc.Bin(pre), Spare: spare})
+						}
+					}
+					w.Outcome("long prefix: " + t)
+				})
+			})
+		}
 		r.Sample("append", arg{Type: "roman", Val: 2, Flags: 64, Prefix: "MIX:", Spare: 3})
 		r.Phase("ID.URN on every listed id", "complete for the listed ids", func() {
 			r.Serial(func(w *mc.W) {
